@@ -96,8 +96,8 @@ func (m *ConnackMessage) Decode(src []byte) (int, error) {
 		return total, err
 	}
 
-	if m.remlen < 2 {
-		return total, fmt.Errorf("connack/Decode: Insufficient remaining length. Expecting %d, got %d", 2, m.remlen)
+	if m.remlen != 2 {
+		return total, fmt.Errorf("connack/Decode: Invalid remaining length. Expecting %d, got %d", 2, m.remlen)
 	}
 
 	b := src[total]
